@@ -6,7 +6,7 @@ import EAO.Model.Translate
 * `slp`: `{problem, samples: [[rat]], futureSteps: [nat]}` or `{problem, samples, pts: [int], end: int,
   start_future: int}` → `{problem, slp: [int|null], mask: [bool], nF, futureSteps}` or `{error: class}`
 * `slp_readout`: `{mapping: [maprow], slp: [int|null], x: [rat], cells: [[asset, node, step]]}`
-  → `{dispatch: [rat], n_samples, steps, index_error}` (`index_error`: some mapping label ≥ len x,
+  → `{dispatch: [rat], n_samples, index_error}` (`index_error`: some mapping label ≥ len x,
   where `res.x[i]` of the implementation raises)
 * `robust_value`: `{samples: [[rat]], x: [rat], c: [rat]}` → `{min: rat|null, values: [rat], reported: rat}`
 -/
@@ -53,7 +53,7 @@ def handleSlp (op : String) (j : Json) : Option (Except String Json) :=
       if h : a.size = 3 then pure ((← a[0].getStr?), (← a[1].getStr?), (← a[2].getNat?))
       else throw "cell [asset, node, step] expected")
     pure (Json.mkObj [("dispatch", jRats (cells.map fun (a, n, t) => slpDispatchOut M slp a n t x)),
-      ("n_samples", jNat (slpNSamples slp)), ("steps", jList jNat (slpSteps M slp)),
+      ("n_samples", jNat (slpNSamples slp)),
       ("index_error", Json.bool (M.any fun m => decide (xs.length ≤ m.var)))])
   | "robust_value" => do
     let samples ← field j "samples" (getList getRats)
